@@ -35,6 +35,13 @@ CHECKS = {
         technique="contract-based deductive verification (ast->z3 VCs, loop invariant over a symbolic permutation), bounded run-time cross-check",
         design_ref="DESIGN 3 C32",
     ),
+    "C29": dict(
+        level="proof",
+        text="Deductive: Renames.get_renames_for_einsum (whole function, four loops with invariants), the rename-merge statement range of Einsum._eval_expressions (slice located by source anchors on every run), the by-name lookup of EvalableList.__getitem__ (slice; it is the meaning of `name in table` / `table[name]`) and Rename._eval_expressions (expected_count rejection) are symbolically executed from the real source over a Burstall heap; proved for every rename table: Einsum-local names resolve to their own source, names under the Einsum's top-level entry resolve to that source, default-only names resolve to the default source, nothing else is defined, a mismatching expected_count never returns normally. Genuine defect F7 was repaired in /repo (fix: commit); the bounded cross-check evaluates random real Specs.",
+        note=_TB + "pydantic construction / deepcopy / RenameList(list) assumed (fresh objects, equal fields); names inside one rename list and top-level entry names are distinct (precondition: the real lookup raises otherwise); the rest of Einsum._eval_expressions outside the slice is dropped; super()._eval_expressions of a Rename assumed.",
+        technique="contract-based deductive verification (ast->z3 VCs over a heap model, loop invariants, slices), bounded run-time cross-check",
+        design_ref="DESIGN 3 C29",
+    ),
 }
 for k in CHECKS:
     PENDING.pop(k, None)
